@@ -119,7 +119,8 @@ def run_tlc(module, cfg=None, workers=4, simulate=None, depth=None, seed=None, e
     Lines of the form <<"TAG", "<json>">> are decoded into result.lines[TAG]."""
     meta = tempfile.mkdtemp(prefix="tlcmeta.", dir=BUILD)
     jopts = ["-XX:+UseParallelGC", "-Xss1g", "-Xmx" + xmx, "-Dfile.encoding=UTF-8", "-Dsun.stdout.encoding=UTF-8",
-             "-Dsun.stderr.encoding=UTF-8"]
+             "-Dsun.stderr.encoding=UTF-8",
+             "-Djava.io.tmpdir=" + meta]          # (TLC unpacks its standard modules into a tlc-* directory there and leaves it behind)
     if deque:
         jopts.append("-Dtlc2.tool.queue.IStateQueue=StateDeque")
     cmd = ["java"] + jopts + ["-cp", JAR, "tlc2.TLC", "-workers", str(workers), "-metadir", meta,
@@ -597,7 +598,9 @@ def chars(s):
 # scratch
 # --------------------------------------------------------------------------
 def scratch_dir():
-    d = os.environ.get("VERIF_SCRATCH") or tempfile.mkdtemp(prefix="fselect-verif.")
+    # under the build directory, not /tmp: the unprivileged runs must be able to reach the worlds, whatever the mode of /tmp is
+    os.makedirs(os.path.join(BUILD, "scratch"), exist_ok=True)
+    d = os.environ.get("VERIF_SCRATCH") or tempfile.mkdtemp(prefix="fselect-verif.", dir=os.path.join(BUILD, "scratch"))
     os.makedirs(d, exist_ok=True)
     os.chmod(d, 0o755)
     return d
